@@ -55,6 +55,11 @@ def make_data(desc):
     S = S + rs.randn(d) * float(desc.get("offset", 1.0))
     if desc.get("global_scale"):
       S = S * float(desc["global_scale"])
+  if desc.get("dups"):          # identical rows at different indices
+    rd = np_stream(seed, "dups")
+    for _ in range(int(desc["dups"])):
+      i, j = rd.randint(0, N, size=2)
+      S[i] = S[j]
   D = Data()
   D.desc = desc
   D.S = np.ascontiguousarray(S, dtype=float)
@@ -95,7 +100,8 @@ def make_data(desc):
 
 
 def _distinct(S, i, j):
-  return np.linalg.norm(S[i] - S[j]) > 1e-6
+  # not a collapsed pair: metric-learn's own test is |x - x'| < 1e-9
+  return np.linalg.norm(S[i] - S[j]) > 1e-6 * min(1.0, 1e3 * (np.abs(S).max() + 1e-300)) + 1e-8
 
 
 def _make_tuples(D, m, seed):
